@@ -42,7 +42,7 @@ DefaultCmds == <<"getNodeId", "nop", "readCounters", "sendUnicast">>     \* CmdO
 None == [res |-> "none", val |-> 0]
 ValOf(seq) == 100 + seq
 
-Init == /\ s = [SInit EXCEPT !.run = TRUE, !.reg = TRUE, !.lay = "native"]
+Init == /\ s = [SInit EXCEPT !.run = TRUE, !.reg = TRUE, !.hv = 8, !.lay = Layout(8)]
         /\ n = NInit /\ h2n = <<>> /\ n2h = <<>> /\ faults = 0 /\ issued = 0
         /\ outc = [c \in 1 .. NCalls |-> None] /\ seqOf = [c \in 1 .. NCalls |-> 0 - 1]
         /\ order = <<>> /\ ncpRx = <<>> /\ ncbs = 0 /\ cbSeen = 0 /\ canc = {} /\ failed = "no"
